@@ -60,10 +60,14 @@ def validate(ctx, module, traces, label=None, chunks=16, timeout=900, cfg=None,
     if not traces:
         return {}
     n = max(1, min(chunks, (len(traces) + min_chunk - 1) // min_chunk))
+    # a chunk is one TLC process reading one JSON file: keep it below ~2.5 MB of trace text so that a chunk never
+    # approaches the per-process timeout however many traces a (thorough) run records; 16 processes run at a time
+    total = sum(len(json.dumps(t, separators=(',', ':'))) for t in traces)
+    n = max(n, (total + 2500000 - 1) // 2500000)
     parts = [traces[i::n] for i in range(n)]
     rejected = {}
     ctx.last_drift = []
-    with ThreadPoolExecutor(max_workers=n) as ex:
+    with ThreadPoolExecutor(max_workers=min(n, 16)) as ex:
         futs = [ex.submit(_one, ctx, module, p, i, label, timeout, cfg)
                 for i, p in enumerate(parts)]
         agg_gen = agg_dist = 0
